@@ -102,7 +102,7 @@ pub fn gen_ns(t: &mut Tape) -> NsCase {
         1 => t.log_uniform(1e-3, 0.05),
         _ => t.log_uniform(1e-6, 1e-3),
     };
-    let decades = t.choose(&[0.0, 0.0, 3.0, 6.0]);
+    let decades = t.choose(&[0.0, 0.0, 3.0, 6.0, 9.0, 12.0]);
     let ss = 10f64.powf(t.uniform(-decades, decades));
     let sz = 10f64.powf(t.uniform(-decades, decades));
     let (s, z) = interior_pair(t, &cone, delta, ss, sz);
